@@ -143,6 +143,12 @@ def run_hist_check(prop: str, tier: str, verif_seed: int) -> int:
             n_planned += len(jf["seeds"]) + len(jc["seeds"])
             procs.append(spawn(jf, env, f"{prop}-{tier}-w{wave}-g{g}-fault"))
             procs.append(spawn(jc, env, f"{prop}-{tier}-w{wave}-g{g}-clean"))
+            if profile == "sharing":
+                # third population: one asynchronous exception per run at a seeded line event
+                n_int = T["runs_per_group"] // 10
+                ji = dict(job, seeds=[h(verif_seed, profile, tier, gid, "int", i) for i in range(n_int)], population="interrupt")
+                n_planned += n_int
+                procs.append(spawn(ji, env, f"{prop}-{tier}-w{wave}-g{g}-interrupt"))
         harness_errors += wait_all(procs, T["budget_s"] * 2 + 180)
         for pr in procs:
             for rec in read_jsonl(pr["out"]):
